@@ -246,14 +246,14 @@ Proof.
   - (* WriteMain *)
     destruct (s_fd s) as [n|] eqn:E; [|exact Same].
     destruct (faults WriteMain); [|eapply EfWrite; try exact E; cbn; try reflexivity; exact E].
-    unfold cleanup. destruct (w_cleanup w && negb (f_keep fl)).
+    unfold cleanup. destruct (w_cleanup w).
     + eapply EfWriteRemove; try exact E; cbn; try reflexivity; exact E.
     + eapply EfWrite; try exact E; cbn; try reflexivity; exact E.
   - destruct (s_fd s) as [n|] eqn:E; [|exact Same].
     destruct (faults CloseMain); [|apply EfClose; reflexivity].
-    unfold cleanup. destruct (w_cleanup w && negb (f_keep fl)); [apply EfCloseRemove|apply EfClose]; reflexivity.
+    unfold cleanup. destruct (w_cleanup w); [apply EfCloseRemove|apply EfClose]; reflexivity.
   - destruct (s_reuse s); [exact Same|]. destruct (faults Chtimes); [|apply EfSame; reflexivity].
-    unfold cleanup. destruct (w_cleanup w && negb (f_keep fl)); [apply EfRemove|apply EfSame]; reflexivity.
+    unfold cleanup. destruct (w_cleanup w); [apply EfRemove|apply EfSame]; reflexivity.
   - destruct (s_reuse s || f_keep fl); apply EfSame; reflexivity.
   - destruct (s_reuse s || negb (f_debug fl)); apply EfSame; reflexivity.
   - destruct (s_reuse s || negb (f_debug fl)); apply EfSame; reflexivity.
@@ -476,9 +476,9 @@ Ltac stepx E K Dg Cm W1 W2 W3 :=
       end;
   try match goal with |- context [if faults ?x then _ else _] => destruct (faults x) eqn:? end.
 
-(* the fault assignments the exact-result theorems cover: nothing fails between os.Create and
-   the registration of the deferred removal, or the repaired Invoke cleans up on that path *)
-Definition safe : Prop := write_ok \/ (w_cleanup w = true /\ f_keep fl = false).
+(* what the exact-result theorems need: GenerateMainfile cleans up on its error paths (the code
+   since 1372a21), or nothing fails between os.Create and the registration of the deferred removal *)
+Definition safe : Prop := write_ok \/ w_cleanup w = true.
 
 Lemma tail_run : forall d0 ru cl,
   (lookup d0 mainfile = None \/ exists es, lookup d0 mainfile = Some (Dir es)) -> safe ->
@@ -486,7 +486,7 @@ Lemma tail_run : forall d0 ru cl,
                    {| s_fs := d0; s_defer := false; s_reuse := ru; s_fd := None; s_gen := false; s_calls := cl |}) in
   finish s' = (if s_gen s' && f_keep fl then set mainfile (File (w_gen w)) d0 else d0).
 Proof.
-  intros d0 ru cl E [(W1 & W2 & W3)|(W1 & K)].
+  intros d0 ru cl E [(W1 & W2 & W3)|W1].
   - unfold gen_steps, post_steps. cbn [app]. cbv zeta.
     pose proof I as Dg; pose proof I as Cm; destruct ru; destruct (f_keep fl) eqn:K;
       (destruct E as [E|[es E]];
@@ -495,7 +495,7 @@ Proof.
        rewrite ?remove_set, ?set_set, ?remove_idem; try reflexivity;
        try (apply remove_absent; exact E)).
   - unfold gen_steps, post_steps. cbn [app]. cbv zeta.
-    pose proof I as Dg; pose proof I as Cm; pose proof I as W2; pose proof I as W3; destruct ru;
+    pose proof I as Dg; pose proof I as Cm; pose proof I as W2; pose proof I as W3; destruct ru; destruct (f_keep fl) eqn:K;
       (destruct E as [E|[es E]];
        repeat stepx E K Dg Cm W1 W2 W3;
        cbn [run fst finish s_fs s_defer s_reuse s_fd s_gen s_calls with_fs with_defer with_reuse with_fd with_gen call andb negb];
@@ -512,9 +512,9 @@ Proof.
   destruct (lookup d mainfile) as [[b|es|t]|] eqn:E; eauto. exfalso. exact (H t E).
 Qed.
 
-(* the directory after a complete run, for every fault assignment that spares the three steps
-   between os.Create and the registration of the deferred removal *)
-Lemma invoke_exact : forall w faults fl d, w_fixed w = true -> nolink d -> safe w faults fl ->
+(* the directory after a complete run: for every fault assignment (code since 1372a21), or for
+   those that spare the three steps between os.Create and the registration of the deferred removal *)
+Lemma invoke_exact : forall w faults fl d, w_fixed w = true -> nolink d -> safe w faults ->
   let o := invoke_dir_full w faults fl d in
   o_fs o = if o_generated o && f_keep fl then set mainfile (File (w_gen w)) (remove_stale d) else remove_stale d.
 Proof.
@@ -534,7 +534,7 @@ Proof.
     cbn [o_fs o_generated]. exact T.
 Qed.
 
-Lemma invoke_clean : forall w faults fl d, w_fixed w = true -> nolink d -> safe w faults fl ->
+Lemma invoke_clean : forall w faults fl d, w_fixed w = true -> nolink d -> safe w faults ->
   f_keep fl = false -> fst (invoke_dir w faults fl d) = remove_stale d.
 Proof.
   intros w faults fl d Hf Hd W K. unfold invoke_dir. cbn [fst].
@@ -542,7 +542,7 @@ Proof.
 Qed.
 
 Lemma invoke_clean_noleftover : forall w faults fl d, w_fixed w = true -> lookup d mainfile = None ->
-  safe w faults fl -> f_keep fl = false -> fst (invoke_dir w faults fl d) = d.
+  safe w faults -> f_keep fl = false -> fst (invoke_dir w faults fl d) = d.
 Proof.
   intros w faults fl d Hf Hd W K.
   rewrite invoke_clean; try assumption.
@@ -550,7 +550,7 @@ Proof.
   - intros t E. congruence.
 Qed.
 
-Lemma invoke_keep : forall w faults fl d, w_fixed w = true -> nolink d -> safe w faults fl ->
+Lemma invoke_keep : forall w faults fl d, w_fixed w = true -> nolink d -> safe w faults ->
   f_keep fl = true ->
   fst (invoke_dir w faults fl d) =
     if o_generated (invoke_dir_full w faults fl d) then set mainfile (File (w_gen w)) (remove_stale d) else remove_stale d.
@@ -607,14 +607,11 @@ Proof.
   rewrite set_set. reflexivity.
 Qed.
 
-Lemma safe_mfdir : forall w faults fl b, safe w faults fl -> safe w faults (with_mfdir fl b).
-Proof. intros w faults fl b [H|H]; [left|right]; exact H. Qed.
-
-Lemma invoke_clean_mf : forall w faults fl b d, w_fixed w = true -> nolink d -> safe w faults fl ->
+Lemma invoke_clean_mf : forall w faults fl b d, w_fixed w = true -> nolink d -> safe w faults ->
   f_keep fl = false -> fst (invoke_dir w faults (with_mfdir fl b) d) = remove_stale d.
-Proof. intros. apply invoke_clean; try assumption; try (apply safe_mfdir; assumption). Qed.
+Proof. intros. apply invoke_clean; try assumption. Qed.
 
-Lemma invoke_top_clean : forall w faults fl ohf d, w_fixed w = true -> safe w faults fl -> f_keep fl = false ->
+Lemma invoke_top_clean : forall w faults fl ohf d, w_fixed w = true -> safe w faults -> f_keep fl = false ->
   nolink d -> (forall sub, lookup d magefilesDir = Some (Dir sub) -> nolink sub) ->
   fst (invoke w faults fl ohf d) = remove_stale_top d.
 Proof.
@@ -792,8 +789,8 @@ Proof. intros. unfold clean_cmd. rewrite H. reflexivity. Qed.
 Definition no_faults : step -> bool := fun _ => false.
 Definition only (x : step) : step -> bool := fun st => step_eqb st x.
 
-Definition w_ex (fixed : bool) : world :=
-  {| w_fixed := fixed; w_cleanup := false; w_gen := "GENERATED"; w_partial := "GENER";
+Definition w_ex (fixed cleanup : bool) : world :=
+  {| w_fixed := fixed; w_cleanup := cleanup; w_gen := "GENERATED"; w_partial := "GENER";
      w_lists_ok := fun e => match e with File EmptyString => false | _ => true end;
      w_gocache := true; w_exe_cached := false; w_imports := 1; w_tcode := 7 |}.
 Definition fl_ex (keep : bool) : flags :=
@@ -801,44 +798,48 @@ Definition fl_ex (keep : bool) : flags :=
 Definition d_ex : fs :=
   [("magefile.go", File "m"); ("helper.go", File "h"); ("data", Dir [("x", File "1")]); ("ln", Link "data")].
 
-(* the full statement of C09_clean is false: a failing write leaves the truncated file behind *)
-Lemma clean_refuted : exists w faults fl d,
+(* before commit 1372a21 the full statement of C09_clean was false: a failing write left the
+   truncated file behind *)
+Lemma clean_before_repair_refuted : exists w faults fl d,
   w_fixed w = true /\ w_cleanup w = false /\ f_keep fl = false /\ lookup d mainfile = None /\
   snd (invoke_dir w faults fl d) = 1 /\
   lookup (fst (invoke_dir w faults fl d)) mainfile = Some (File (w_partial w)).
-Proof. exists (w_ex true), (only WriteMain), (fl_ex false), d_ex. vm_compute. repeat split. Qed.
+Proof. exists (w_ex true false), (only WriteMain), (fl_ex false), d_ex. vm_compute. repeat split. Qed.
 
 (* before commit d5ea0c0: an empty leftover makes the next run fail *)
 Lemma before_repair_refuted : exists w faults fl d junk,
   w_fixed w = false /\ lookup d mainfile = None /\
   snd (invoke_dir w faults fl (set mainfile (File junk) d)) <> snd (invoke_dir w faults fl d).
-Proof. exists (w_ex false), no_faults, (fl_ex false), d_ex, EmptyString. vm_compute. repeat split. discriminate. Qed.
+Proof. exists (w_ex false true), no_faults, (fl_ex false), d_ex, EmptyString. vm_compute. repeat split. discriminate. Qed.
 
 (* a symbolic link of that name is not "a generated file left behind": os.Create writes through it *)
 Lemma symlink_written_through : exists w faults fl d,
   w_fixed w = true /\ lookup d mainfile = Some (Link "helper.go") /\
   lookup (fst (invoke_dir w faults fl d)) "helper.go" = Some (File (w_gen w)) /\
   lookup (fst (invoke_dir w faults fl d)) mainfile = None.
-Proof. exists (w_ex true), no_faults, (fl_ex false), (d_ex ++ [(mainfile, Link "helper.go")]). vm_compute. repeat split. Qed.
+Proof. exists (w_ex true true), no_faults, (fl_ex false), (d_ex ++ [(mainfile, Link "helper.go")]). vm_compute. repeat split. Qed.
 
 Lemma nonvacuous_c09 :
   let d := d_ex in
   let dj := set mainfile (File "pack") d in
   (* success, failing target, failing build, failing go list: the directory is as before; a leftover is removed *)
-  invoke_dir (w_ex true) no_faults (fl_ex false) d = (d, 0) /\
-  invoke_dir (w_ex true) (only TargetOutcome) (fl_ex false) d = (d, 7) /\
-  invoke_dir (w_ex true) (only GoBuild) (fl_ex false) dj = (d, 1) /\
-  invoke_dir (w_ex true) (only GoListFiles) (fl_ex false) dj = (d, 1) /\
+  invoke_dir (w_ex true true) no_faults (fl_ex false) d = (d, 0) /\
+  invoke_dir (w_ex true true) (only TargetOutcome) (fl_ex false) d = (d, 7) /\
+  invoke_dir (w_ex true true) (only GoBuild) (fl_ex false) dj = (d, 1) /\
+  invoke_dir (w_ex true true) (only GoListFiles) (fl_ex false) dj = (d, 1) /\
+  (* the write of the generated file fails (full disk), with and without -keep *)
+  invoke_dir (w_ex true true) (only WriteMain) (fl_ex false) dj = (d, 1) /\
+  invoke_dir (w_ex true true) (only Chtimes) (fl_ex true) d = (d, 1) /\
   (* -keep *)
-  invoke_dir (w_ex true) no_faults (fl_ex true) dj = (set mainfile (File "GENERATED") d, 0) /\
-  invoke_dir (w_ex true) (only Parse) (fl_ex true) dj = (d, 1) /\
+  invoke_dir (w_ex true true) no_faults (fl_ex true) dj = (set mainfile (File "GENERATED") d, 0) /\
+  invoke_dir (w_ex true true) (only Parse) (fl_ex true) dj = (d, 1) /\
   (* killed while go build runs, then a normal run *)
-  crash_dir (w_ex true) no_faults (fl_ex false) 19 d = set mainfile (File "GENERATED") d /\
-  invoke_dir (w_ex true) no_faults (fl_ex false) (crash_dir (w_ex true) no_faults (fl_ex false) 19 d) = (d, 0) /\
+  crash_dir (w_ex true true) no_faults (fl_ex false) 19 d = set mainfile (File "GENERATED") d /\
+  invoke_dir (w_ex true true) no_faults (fl_ex false) (crash_dir (w_ex true true) no_faults (fl_ex false) 19 d) = (d, 0) /\
   (* killed between os.Create and the first write *)
-  crash_dir (w_ex true) no_faults (fl_ex false) 13 d = set mainfile (File "") d /\
+  crash_dir (w_ex true true) no_faults (fl_ex false) 13 d = set mainfile (File "") d /\
   (* the go commands of a normal run *)
-  o_calls (invoke_dir_full (w_ex true) no_faults (fl_ex false) d) = [GVersion; GEnvGocache; GList; GList; GBuild] /\
+  o_calls (invoke_dir_full (w_ex true true) no_faults (fl_ex false) d) = [GVersion; GEnvGocache; GList; GList; GBuild] /\
   (* -init and -clean *)
   init_cmd false false "tpl" "t" d = (d, 1) /\
   init_cmd false false "tpl" "t" [("a", File "1")] = ([("a", File "1"); (initFile, File "tpl")], 0) /\
@@ -850,24 +851,24 @@ Proof. vm_compute. repeat split. Qed.
 (* ------------------------------------------------------------------------------------------ *)
 (* the statements of Props/C09.v, arguments in the order used there                            *)
 
-Lemma p_clean : forall w faults fl, w_fixed w = true -> forall d, f_keep fl = false -> nolink d -> write_ok faults ->
+Lemma p_clean : forall w faults fl, w_fixed w = true -> w_cleanup w = true ->
+  forall d, f_keep fl = false -> nolink d -> fst (invoke_dir w faults fl d) = remove_stale d.
+Proof. intros. apply invoke_clean; try assumption. right. assumption. Qed.
+
+Lemma p_clean_noleftover : forall w faults fl, w_fixed w = true -> w_cleanup w = true ->
+  forall d, f_keep fl = false -> lookup d mainfile = None -> fst (invoke_dir w faults fl d) = d.
+Proof. intros. apply invoke_clean_noleftover; try assumption. right. assumption. Qed.
+
+(* the code before 1372a21 (any w_cleanup): only when write, close and chtimes do not fail *)
+Lemma p_clean_old_partial : forall w faults fl, w_fixed w = true -> forall d, f_keep fl = false -> nolink d -> write_ok faults ->
   fst (invoke_dir w faults fl d) = remove_stale d.
 Proof. intros. apply invoke_clean; try assumption. left. assumption. Qed.
 
-Lemma p_clean_noleftover : forall w faults fl, w_fixed w = true -> forall d, f_keep fl = false ->
-  lookup d mainfile = None -> write_ok faults -> fst (invoke_dir w faults fl d) = d.
-Proof. intros. apply invoke_clean_noleftover; try assumption. left. assumption. Qed.
-
-(* the full statement, for an Invoke that removes the file again when generating it fails *)
-Lemma p_clean_full : forall w faults fl, w_fixed w = true -> w_cleanup w = true -> forall d, f_keep fl = false -> nolink d ->
-  fst (invoke_dir w faults fl d) = remove_stale d.
-Proof. intros. apply invoke_clean; try assumption. right. split; assumption. Qed.
-
-Lemma p_keep : forall w faults fl, w_fixed w = true -> forall d, f_keep fl = true -> nolink d -> write_ok faults ->
+Lemma p_keep : forall w faults fl, w_fixed w = true -> w_cleanup w = true -> forall d, f_keep fl = true -> nolink d ->
   fst (invoke_dir w faults fl d) =
     if o_generated (invoke_dir_full w faults fl d)
     then set mainfile (File (w_gen w)) (remove_stale d) else remove_stale d.
-Proof. intros. apply invoke_keep; try assumption. left. assumption. Qed.
+Proof. intros. apply invoke_keep; try assumption. right. assumption. Qed.
 
 Lemma p_leftover : forall w faults fl, w_fixed w = true -> forall d junk, plain d ->
   invoke_dir_full w faults fl (set mainfile (File junk) d) = invoke_dir_full w faults fl d.
@@ -886,10 +887,10 @@ Lemma p_leftover_sub : forall w faults fl, w_fixed w = true -> forall ohf d sub 
   invoke w faults fl ohf (set magefilesDir (Dir (set mainfile (File junk) sub)) d) = invoke w faults fl ohf d.
 Proof. intros. apply invoke_top_leftover_sub; assumption. Qed.
 
-Lemma p_clean_top : forall w faults fl, w_fixed w = true -> forall ohf d, f_keep fl = false -> write_ok faults ->
+Lemma p_clean_top : forall w faults fl, w_fixed w = true -> w_cleanup w = true -> forall ohf d, f_keep fl = false ->
   nolink d -> (forall sub, lookup d magefilesDir = Some (Dir sub) -> nolink sub) ->
   fst (invoke w faults fl ohf d) = remove_stale_top d.
-Proof. intros. apply invoke_top_clean; try assumption. left. assumption. Qed.
+Proof. intros. apply invoke_top_clean; try assumption. right. assumption. Qed.
 
 Lemma p_init_only_creates : forall open_fault write_fault tpl partial d,
   (forall n e, lookup d n = Some e -> lookup (fst (init_cmd open_fault write_fault tpl partial d)) n = Some e) /\
